@@ -430,6 +430,58 @@ pub mod proofs {
         }
     }
 
+    /// conformance of the assumed contracts of the Verus prelude, asserted on the real core/alloc
+    /// functions (so a wrong assumption shows up as a failed Kani check instead of a false proof)
+    #[kani::proof]
+    #[kani::unwind(8)]
+    pub fn c10_prelude_conformance() {
+        let mut b = [0u8; N + 1];
+        let s = any_bytes(&mut b);
+        // [T]::to_vec
+        let v = s.to_vec();
+        assert!(v.len() == s.len(), "to_vec_len");
+        let mut i = 0;
+        while i < s.len() { assert!(v[i] == s[i], "to_vec_bytes"); i += 1; }
+        // Option<&T>::copied / last / first
+        assert!(v.last().copied() == if s.is_empty() { None } else { Some(s[s.len() - 1]) }, "last_copied");
+        assert!(v.first().copied() == if s.is_empty() { None } else { Some(s[0]) }, "first_copied");
+        // [T]::get_unchecked for index and ranges (in bounds)
+        if s.len() >= 2 {
+            unsafe {
+                assert!(*s.get_unchecked(0) == s[0], "get_unchecked_index");
+                let t = s.get_unchecked(1..);
+                assert!(t.len() == s.len() - 1 && t[0] == s[1], "get_unchecked_range_from");
+                let u = s.get_unchecked(..=1);
+                assert!(u.len() == 2 && u[1] == s[1], "get_unchecked_range_to_inclusive");
+                let w = s.get_unchecked(..1);
+                assert!(w.len() == 1 && w[0] == s[0], "get_unchecked_range_to");
+            }
+        }
+        // <Vec<u8> as Extend<u8>>::extend(Vec<u8>) appends; extend_from_slice appends; pop drops the last
+        let mut x = s.to_vec();
+        let y = s.to_vec();
+        x.extend(y);
+        assert!(x.len() == 2 * s.len(), "extend_vec_len");
+        if !s.is_empty() { assert!(x[s.len()] == s[0], "extend_vec_appends_in_order"); }
+        let mut z = s.to_vec();
+        z.extend_from_slice(s);
+        assert!(z.len() == 2 * s.len(), "extend_from_slice_len");
+        let p = z.pop();
+        assert!(p.is_some() == !s.is_empty(), "pop");
+        // String seen through its bytes
+        let mut ab = [0u8; 3];
+        let l: usize = kani::any();
+        kani::assume(l <= 3);
+        let mut i = 0;
+        while i < 3 { let c: u8 = kani::any(); kani::assume(c < 128); ab[i] = c; i += 1; }
+        let st = unsafe { String::from_utf8_unchecked(ab[..l].to_vec()) };
+        assert!(st.is_empty() == (l == 0), "string_is_empty_iff_no_bytes");
+        let by = st.into_bytes();
+        assert!(by.len() == l, "into_bytes_len");
+        let mut i = 0;
+        while i < l { assert!(by[i] == ab[i], "into_bytes_exact"); i += 1; }
+    }
+
     #[kani::proof]
     #[kani::unwind(8)]
     pub fn c10_from_unixstr() {
